@@ -19,6 +19,9 @@
 #include <functional>
 #include <mutex>
 #include <cassert>
+#ifdef EVENTPP_VERIF
+#include <limits>
+#endif
 
 namespace eventpp {
 
@@ -461,6 +464,19 @@ private:
 
 		tail = node;
 	}
+
+#ifdef EVENTPP_VERIF
+public:
+	// Verification only: put the generation counter `distance` steps before its maximum,
+	// so that the wrap-around can be reached without 2^32 additions.
+	void verifSetCounterBeforeMax(const unsigned int distance) {
+		currentCounter.store((std::numeric_limits<Counter>::max)() - static_cast<Counter>(distance));
+	}
+
+	unsigned long long verifGetCounter() const {
+		return static_cast<unsigned long long>(currentCounter.load());
+	}
+#endif
 
 private:
 	NodePtr head;
